@@ -9,6 +9,7 @@ import (
 	"encoding/json"
 	"flag"
 	"fmt"
+	"io"
 	"os"
 	"os/exec"
 	"path/filepath"
@@ -102,6 +103,9 @@ func runShard(ck *checks.Check, tier string, shard, n int, out string, dl time.D
 		})
 	}
 	ctx.Watch(checks.HangLimit, flush)
+	if out != "" {
+		ctx.TraceTo(out + ".cur") // names the running call if the process dies (see parent)
+	}
 	func() {
 		defer func() {
 			if r := recover(); r != nil {
@@ -135,9 +139,11 @@ func parent(ck *checks.Check, tier string, dl time.Duration) int {
 	defer os.RemoveAll(tmp)
 
 	type res struct {
-		rep  *core.Report
-		code int
-		err  error
+		rep    *core.Report
+		code   int
+		err    error
+		stderr string
+		cur    *core.Case // the call that was running when the shard process ended
 	}
 	results := make([]res, n)
 	var wg sync.WaitGroup
@@ -151,10 +157,15 @@ func parent(ck *checks.Check, tier string, dl time.Duration) int {
 				args = append(args, "--deadline", dl.String())
 			}
 			cmd := exec.Command(self, args...)
-			cmd.Stderr = os.Stderr
+			errTail := &tailBuf{max: 1 << 16}
+			cmd.Stderr = io.MultiWriter(os.Stderr, errTail)
 			cmd.Stdout = os.Stderr
 			cmd.Env = append(os.Environ(), "GOMAXPROCS="+gomaxprocs(ck, n))
 			err := cmd.Run()
+			results[i].stderr = errTail.String()
+			if b, e := os.ReadFile(out + ".cur"); e == nil {
+				results[i].cur, _ = core.DecodeCase(b)
+			}
 			code := 0
 			if ee, ok := err.(*exec.ExitError); ok {
 				code = ee.ExitCode()
@@ -175,6 +186,20 @@ func parent(ck *checks.Check, tier string, dl time.Duration) int {
 	total := core.NewReport()
 	broken := false
 	for i, r := range results {
+		if r.err == nil && r.rep == nil && r.code != 0 && r.cur != nil && isCrash(r.stderr) {
+			// the shard process died inside a call: a panic in a goroutine started by the library (nothing
+			// in-process can recover it). The call is named by the side file written before every case.
+			cs := *r.cur
+			cs.Q = strconv.Quote(string(cs.S))
+			msg := fmt.Sprintf("the process died while this call was running (a panic outside the calling goroutine cannot be recovered):\n%s", crashSummary(r.stderr))
+			if crashIsViolation(ck.ID) {
+				total.Add(core.Finding{Prop: ck.ID, Case: cs, Key: cs.Key(), Msg: msg, Crash: true})
+				total.NotDone("shard %d of %d ended in a crashed call (%s); the rest of its share was not executed", i, n, cs.Key())
+				continue
+			}
+			fmt.Fprintf(os.Stderr, "CHECK-BROKEN: the process died during %s (crashes and panics are decided by C10/C16/C18):\n%s\n", cs.Key(), crashSummary(r.stderr))
+			return 2
+		}
 		if r.err != nil || r.rep == nil || (r.code != 0 && r.code != 3) {
 			fmt.Fprintf(os.Stderr, "CHECK-BROKEN shard %d: exit=%d err=%v report=%v\n", i, r.code, r.err, r.rep != nil)
 			broken = true
@@ -467,6 +492,27 @@ func doReplay(ck *checks.Check, path string) int {
 		fmt.Fprintln(os.Stderr, err)
 		return 2
 	}
+	if f.Crash && os.Getenv("VERIF_REPLAY_INNER") == "" {
+		// the call is expected to take the process down: run it in a child and report what happened
+		self, err := os.Executable()
+		if err != nil {
+			fmt.Fprintln(os.Stderr, err)
+			return 2
+		}
+		cmd := exec.Command(self, ck.ID, "--replay", path)
+		cmd.Env = append(os.Environ(), "VERIF_REPLAY_INNER=1")
+		out, err := cmd.CombinedOutput()
+		if ee, ok := err.(*exec.ExitError); ok && isCrash(string(out)) {
+			_ = ee
+			fmt.Printf("VIOLATION property=%s replay=%s\n  case: %s\n  what: the process died while this call was running:\n%s\n", ck.ID, path, f.Key, crashSummary(string(out)))
+			return 1
+		}
+		os.Stdout.Write(out)
+		if ee, ok := err.(*exec.ExitError); ok {
+			return ee.ExitCode()
+		}
+		return 0
+	}
 	if f.NeedPrefix {
 		// re-execute the call sequence of the finding's shard up to its position
 		ctx := &core.Ctx{ID: ck.ID, Tier: f.Tier, Shard: f.Shard, NShards: f.NShards, R: core.NewReport(), StopAfter: f.Seq}
@@ -546,4 +592,50 @@ func samplesOrPlaceholder(r *core.Report) []any {
 		return r.Samples
 	}
 	return []any{"(no sample recorded)"}
+}
+
+// tailBuf keeps the last max bytes written to it.
+type tailBuf struct {
+	mu  sync.Mutex
+	max int
+	b   []byte
+}
+
+func (t *tailBuf) Write(p []byte) (int, error) {
+	t.mu.Lock()
+	defer t.mu.Unlock()
+	t.b = append(t.b, p...)
+	if len(t.b) > 2*t.max {
+		t.b = append([]byte(nil), t.b[len(t.b)-t.max:]...)
+	}
+	return len(p), nil
+}
+
+func (t *tailBuf) String() string {
+	t.mu.Lock()
+	defer t.mu.Unlock()
+	return string(t.b)
+}
+
+// isCrash recognises the Go runtime's report of an unrecovered panic or fatal error.
+func isCrash(stderr string) bool {
+	return (strings.Contains(stderr, "\npanic: ") || strings.HasPrefix(stderr, "panic: ") || strings.Contains(stderr, "fatal error: ")) && strings.Contains(stderr, "goroutine ")
+}
+
+// crashSummary returns the panic line and the first frames of the goroutine that panicked.
+func crashSummary(stderr string) string {
+	i := strings.Index(stderr, "panic: ")
+	if j := strings.Index(stderr, "fatal error: "); i < 0 || (j >= 0 && j < i) {
+		i = j
+	}
+	if i < 0 {
+		return firstLines(stderr, 12)
+	}
+	return firstLines(stderr[i:], 14)
+}
+
+// crashIsViolation: a crash violates the no-panic clauses of C10 and C16 and the properties of the
+// utilities that start goroutines or that no other property covers (as for calls that do not return).
+func crashIsViolation(id string) bool {
+	return id == "C10" || id == "C16" || id == "C09" || id == "C17" || id == "C18"
 }
